@@ -88,6 +88,10 @@ class Splice(BlockMiddleware):
             return [a, b]
         if k == "tuple2":
             return (a, b)
+        if k == "dup2":
+            return [a, a]
+        if k == "dup3":
+            return (b, a, b)
         if k == "gen":
             return (x for x in [a, b])
         if k == "int":
@@ -105,7 +109,82 @@ class Splice(BlockMiddleware):
         return entry
 
 
-SPLICE = {"none": [], "empty": [], "emptystr": [], "block": ["A"], "list2": ["A", "B"], "tuple2": ["A", "B"], "gen": TypeError, "int": TypeError,
+class SpliceAll(BlockMiddleware):
+    """probe overriding transform_block itself: acts on the blocks of ONE type (any type, failed blocks included)"""
+
+    def __init__(self, target, kind):
+        super().__init__(allow_inplace_modification=True, allow_parallel_execution=True)
+        self.target = target
+        self.kind = kind
+
+    def transform_block(self, block, library):
+        if type_code(block) != self.target:
+            return block
+        k = self.kind
+        a = M.ExplicitComment("A", 0, "A")
+        b = M.ExplicitComment("B", 0, "B")
+        if k == "n":
+            return None
+        if k == "e":
+            return []
+        if k == "b":
+            return a
+        if k == "l":
+            return [a, b]
+        if k == "t":
+            return (b, a)
+        if k == "d":
+            return [a, a]
+        if k == "i":
+            return 5
+        if k == "m":
+            return [a, 7]
+        return block
+
+
+ALL_KINDS = {"n": [], "e": [], "b": ["A"], "l": ["A", "B"], "t": ["B", "A"], "d": ["A", "A"], "i": TypeError, "m": TypeError, "s": None}
+ALL_TARGETS = "SPXIEF"
+ALL_DOC = '@string{s = "x"}\n@preamble{"p"}\n@comment{c}\nfree\n@a{k, t = {v}}\n@a{k, t = {w}}\n'
+
+
+def type_code(b):
+    if isinstance(b, M.ParsingFailedBlock):
+        return "F"
+    if isinstance(b, M.String):
+        return "S"
+    if isinstance(b, M.Preamble):
+        return "P"
+    if isinstance(b, M.ExplicitComment):
+        return "X"
+    if isinstance(b, M.ImplicitComment):
+        return "I"
+    if isinstance(b, M.Entry):
+        return "E"
+    return "?"
+
+
+def drv_spliceall(text, target, kind):
+    lib = Splitter(text).split()
+    shape = [type_code(b) for b in lib.blocks]
+    try:
+        out = SpliceAll(target, kind).transform(lib)
+        got = [b.raw if isinstance(b, M.ExplicitComment) and b.raw in ("A", "B") else type_code(b) for b in out.blocks]
+    except TypeError:
+        got = "TypeError"
+    return got, shape
+
+
+def expect_all(shape, target, kind):
+    res = ALL_KINDS[kind]
+    if res is TypeError:
+        return "TypeError" if target in shape else list(shape)
+    out = []
+    for x in shape:
+        out.extend(res if (x == target and res is not None) else [x])
+    return out
+
+
+SPLICE = {"none": [], "empty": [], "emptystr": [], "block": ["A"], "list2": ["A", "B"], "tuple2": ["A", "B"], "dup2": ["A", "A"], "dup3": ["B", "A", "B"], "gen": TypeError, "int": TypeError,
           "zero": TypeError, "false": TypeError,
           "str": TypeError, "mixed": TypeError, "same": ["E"]}
 
@@ -258,7 +337,7 @@ def sym_doc(eng):
 
 def task_stack(which, stack_spec, extra_spec, how, doc="entry"):
     eng = Engine()
-    eng.own_class(TagFields, TagLib, Splice, AddBlock)
+    eng.own_class(TagFields, TagLib, Splice, AddBlock, SpliceAll)
     rec = Recorder(eng)
     if doc == "entry":
         text, syms = sym_doc(eng)
@@ -302,7 +381,7 @@ def task_stack(which, stack_spec, extra_spec, how, doc="entry"):
 
 def task_repeat():
     eng = Engine()
-    eng.own_class(TagFields, TagLib, Splice, AddBlock)
+    eng.own_class(TagFields, TagLib, Splice, AddBlock, SpliceAll)
     rec = Recorder(eng)
     text, syms = sym_doc(eng)
     E = eng.I.models.eq_simple
@@ -332,7 +411,7 @@ def task_repeat():
 
 def task_splice(kind):
     eng = Engine()
-    eng.own_class(TagFields, TagLib, Splice, AddBlock)
+    eng.own_class(TagFields, TagLib, Splice, AddBlock, SpliceAll)
     rec = Recorder(eng)
     text, syms = sym_doc(eng)
     worlds = eng.run(drv_splice, [text, kind])
@@ -364,6 +443,49 @@ def task_splice(kind):
         rec.require(W, got != expect(shape), "splice-semantics", rp)
         if n > 0:
             rec.witness("entry-spliced", W)
+    return rec.result(worlds=len(worlds))
+
+
+def task_spliceall():
+    """transform_block-level probe for every block type, failed blocks included; target type and result kind symbolic"""
+    eng = Engine()
+    eng.own_class(TagFields, TagLib, Splice, AddBlock, SpliceAll)
+    rec = Recorder(eng)
+    tail = eng.sym_str("t", 2, SIGMA_S)
+    text = mk(tuple(ALL_DOC) + chars(tail))
+    target = eng.sym_str("T", 1, ALL_TARGETS)
+    kind = eng.sym_str("K", 1, "".join(ALL_KINDS))
+    worlds = eng.run(drv_spliceall, [text, target, kind])
+
+    def rp(m):
+        import logging
+        logging.disable(logging.CRITICAL)
+        t, tg, kd = eng.model_str(m, text), eng.model_str(m, target), eng.model_str(m, kind)
+        try:
+            got, shape = drv_spliceall(t, tg, kd)
+        except Exception as ex:  # noqa
+            return {"input": [t, tg, kd], "observed": f"raised {type(ex).__name__}: {ex}", "expected": "splice or TypeError"}
+        if got == expect_all(shape, tg, kd):
+            return None
+        return {"input": [t, tg, kd], "observed": got, "expected": expect_all(shape, tg, kd)}
+    E = eng.I.models.eq_simple
+    for W in worlds:
+        if W.exc is not None:
+            rec.require(W, True, "no-other-exception", rp)
+            continue
+        got, shape = W.result
+        # the world is concrete in (target, kind, shape) up to the guard: enumerate the (target, kind) pairs it admits
+        bad = False
+        for tg in ALL_TARGETS:
+            for kd in ALL_KINDS:
+                here = b_and(E(target, tg), E(kind, kd))
+                if here is False:
+                    continue
+                if got != expect_all(shape, tg, kd):
+                    bad = b_or(bad, here)
+        rec.require(W, bad, "splice-semantics-every-type", rp)
+        if "F" in shape:
+            rec.witness("failed-block-spliced", W, E(target, "F"))
     return rec.result(worlds=len(worlds))
 
 
@@ -511,11 +633,11 @@ def main():
     chk = Check("C20", __doc__)
     chk.bounds = {"document": "'@a{K, t = {v}, u = w}' + newline + 2 symbolic characters over the splitter alphabet; K symbolic over {a,b}; and documents that are just 2 symbolic characters (possibly blank) with content-generating probes",
                   "stacks": "parse_stack / unparse_stack in {None, [], 1, 2, 3 probes}, append / prepend in {None, [], 1, 2 probes}, block and library probes mixed, passed as list / tuple / one-shot iterator",
-                  "splice results": sorted(SPLICE), "file layer": "open() stub; encodings utf-8/latin-1/gbk/utf-16 passed through; path and file-object targets"}
+                  "splice results": sorted(SPLICE), "splice at transform_block level": "document with String, Preamble, ExplicitComment, ImplicitComment, Entry, duplicate-key (failed) block + 2 symbolic characters; target block type symbolic over S/P/X/I/E/F, result kind symbolic over None, [], block, [a,b], (b,a), [a,a], 5, [a,7], same", "file layer": "open() stub; encodings utf-8/latin-1/gbk/utf-16 passed through; path and file-object targets"}
     chk.assumptions = ["real codecs / the OS are outside the claim: open() is a stub that records its arguments; only the pass-through of path/encoding and the equality with parse_string(content) / write_string(...) are claimed",
                        "probe middlewares are the three classes defined in checks/c20.py"]
     chk.stubs = ["builtins.open -> recording stub file"]
-    chk.expected_vacuity = ["both-given-rejected", "probes-applied", "entry-spliced", "file-parsed", "file-log-checked", "repeated-calls"]
+    chk.expected_vacuity = ["both-given-rejected", "probes-applied", "entry-spliced", "failed-block-spliced", "file-parsed", "file-log-checked", "repeated-calls"]
     deep = chk.tier == "thorough"
     stacks = [None, [], ["b1"], ["b1", "l2"], ["l2", "b1"]] + ([["b1", "b2", "l3"], ["l3", "b2", "b1"]] if deep else [["b1", "l2", "b3"]])
     extras = [None, [], ["b8"], ["b8", "l9"], ["l9", "b8"]]
@@ -532,6 +654,7 @@ def main():
             chk.add_task(f"{which}-blank-{st}-{ex}".replace(" ", ""), task_stack, which=which, stack_spec=st, extra_spec=ex, how="list", doc="blank")
     for kind in SPLICE:
         chk.add_task(f"splice-{kind}", task_splice, kind=kind)
+    chk.add_task("splice-every-type", task_spliceall)
     chk.add_task("repeated-calls", task_repeat)
     for enc, tk in itertools.product(("utf-8", "latin-1", "gbk", "utf-16"), ("path", "obj")):
         chk.add_task(f"files-{enc}-{tk}", task_files, enc=enc, target_kind=tk)
